@@ -248,7 +248,7 @@ PLAN["C07"] = {
 PLAN["C11"] = {
     "level": "exploration",
     "rule": ("(Small, rapid) many independent proving systems: ProvingSystem values whose constraint system is a generated tiny circuit (1-40 multiplications, 0-3 bit-decomposition hints, 1-3 public inputs; fresh Groth16 setup each) and "
-             "whose TreeDepth/BatchSize are arbitrary uint32 with distinct bytes (0x01020304, 0x0A0B0C0D, 0, 2^32-1, ...), pushed through a drawn sequence of 1-4 operations from {write compressed + read, write raw + read, "
+             "whose TreeDepth (1..32) and BatchSize (1..4096, incl. 258, 513 and values above 2^depth) always differ, pushed through a drawn sequence of 1-4 operations from {write compressed + read, write raw + read, "
              "the same through ReadSystemFromFile on a temp file}. (Real, rapid) real systems (quick: deletion depth 2/batch 3; thorough: + insertion (3,2), (4,1), deletion (1,4)) through file-raw, compressed+raw, and in thorough the CLI "
              "convert-to-raw, followed by cross prove/verify of generated valid batches through ProveX/VerifyX in both directions. Oracle after every operation: same depth and batch, and gnark's raw serialisation of pk and vk and the serialised "
              "constraint system are byte-identical to the original's; reported byte counts equal the real ones; reloaded proves => original verifies and vice versa. Non-trivial = depth != batch with at least one conversion, or a real system; "
